@@ -38,81 +38,74 @@ func checkC07(c *Check) {
 				}
 			}
 		}
-		var sw *ast.SwitchStmt
-		ast.Inspect(r.FI.Decl.Body, func(n ast.Node) bool {
-			if s, ok := n.(*ast.SwitchStmt); ok && s.Tag != nil && typeIs(info.TypeOf(s.Tag), msgauthDMARC, "Policy") {
-				sw = s
+		// The action taken for each published policy value, decided in model worlds (policy == v) on the flow graph –
+		// whatever the form of the dispatch (switch, if-chain).
+		applyPts := r.Calls(calling("~/internal/dmarc.Verifier.Apply"))
+		var polVar types.Object
+		if len(applyPts) == 1 {
+			if as, ok := applyPts[0].Node().(*ast.AssignStmt); ok && len(as.Lhs) == 2 {
+				polVar = objOf(info, as.Lhs[1])
 			}
-			return true
-		})
-		if sw == nil || len(consts) < 3 {
-			c.Fail("R1", "applyResults:switch", r.FI.Decl.Pos(), "undecided: no switch over the DMARC policy / policy constants not found")
+		}
+		if polVar == nil || len(consts) < 3 {
+			c.Fail("R1", "applyResults:switch", r.FI.Decl.Pos(), "undecided: the policy returned by the DMARC verifier is not kept in a variable / policy constants not found")
 		} else {
-			cases := map[string]*ast.CaseClause{}
-			for _, cl := range sw.Body.List {
-				cc := cl.(*ast.CaseClause)
-				for _, e := range cc.List {
-					if tv, ok := info.Types[e]; ok && tv.Value != nil && tv.Value.Kind() == constant.String {
-						cases[constant.StringVal(tv.Value)] = cc
+			worldFor := func(v string) func(b *cfgBlock, i int) bool {
+				return r.F.ValueWorld(func(e ast.Expr) (constant.Value, bool) {
+					if id, ok := ast.Unparen(e).(*ast.Ident); ok && objOf(info, id) == polVar {
+						return constant.MakeString(v), true
 					}
+					return nil, false
+				})
+			}
+			sets := func(pt Pt) bool {
+				return nodeAssigns(pt.Node(), func(l, rhs ast.Expr) bool {
+					if !isField(info, l, "MsgMetadata", "Quarantine") || rhs == nil {
+						return false
+					}
+					tv, ok := info.Types[rhs]
+					return ok && tv.Value != nil && tv.Value.String() == "true"
+				})
+			}
+			acceptExit := func(pt Pt) bool {
+				if !r.F.IsExitPt(pt) {
+					return false
 				}
+				k, ret := r.F.Exit(pt)
+				if k == ExitPanic {
+					return false
+				}
+				return ret == nil || len(ret.Results) != 1 || isNilIdent(info, ret.Results[0]) || r.IsSuccessReturn(pt)
+			}
+			refuses := func(v string) (bool, string) {
+				path, f := r.F.Reach(Query{From: applyPts, Target: acceptExit, AvoidEdge: worldFor(v)})
+				return !f, r.F.Describe(path)
+			}
+			flags := func(v string) (bool, string) {
+				path, f := r.F.Reach(Query{From: applyPts, Target: r.F.IsExitPt, Avoid: sets, AvoidEdge: worldFor(v)})
+				return !f, r.F.Describe(path)
 			}
 			missing := []string{}
 			for _, v := range consts {
 				if v == "none" || v == "" {
 					continue
 				}
-				if cases[v] == nil {
+				ok1, _ := refuses(v)
+				ok2, _ := flags(v)
+				if !ok1 && !ok2 {
 					missing = append(missing, v)
 				}
 			}
-			c.Hold("R1", "applyResults:exhaustive", sw.Pos(), len(missing) == 0, "published DMARC action(s) without a handler: "+strings.Join(missing, ", ")+" (the message is accepted as if the policy were none)")
-			// reject: every path through the case body ends in `return <non-nil>`
-			if cc := cases["reject"]; cc != nil {
-				var start []Pt
-				for _, b := range r.F.G.Blocks {
-					if b.Stmt == ast.Stmt(cc) && b.Live && len(b.Nodes) > 0 && posIn(cc, b.Nodes[0].Pos()) {
-						start = append(start, Pt{b, 0})
-					}
-				}
-				leaves := func(pt Pt) bool {
-					n := pt.Node()
-					if n != nil && !posIn(cc, n.Pos()) {
-						return true // left the case body
-					}
-					if r.F.IsExitPt(pt) {
-						_, ret := r.F.Exit(pt)
-						if ret == nil || len(ret.Results) != 1 || isNilIdent(info, ret.Results[0]) {
-							return true
-						}
-					}
-					return false
-				}
-				path, f := r.F.Reach(Query{From: start, Inclusive: true, Target: leaves})
-				c.Hold("R1", "applyResults:reject-refuses", cc.Pos(), !f && len(start) > 0, "the reject action can fall through without refusing the message: "+r.F.Describe(path))
-			}
-			if cc := cases["quarantine"]; cc != nil {
-				var start []Pt
-				for _, b := range r.F.G.Blocks {
-					if b.Stmt == ast.Stmt(cc) && b.Live && len(b.Nodes) > 0 && posIn(cc, b.Nodes[0].Pos()) {
-						start = append(start, Pt{b, 0})
-					}
-				}
-				sets := func(pt Pt) bool {
-					return nodeAssigns(pt.Node(), func(l, rhs ast.Expr) bool {
-						if !isField(info, l, "MsgMetadata", "Quarantine") || rhs == nil {
-							return false
-						}
-						tv, ok := info.Types[rhs]
-						return ok && tv.Value != nil && tv.Value.String() == "true"
-					})
-				}
-				leaves := func(pt Pt) bool {
-					n := pt.Node()
-					return (n != nil && !posIn(cc, n.Pos())) || r.F.IsExitPt(pt)
-				}
-				path, f := r.F.Reach(Query{From: start, Inclusive: true, Target: leaves, Avoid: sets})
-				c.Hold("R1", "applyResults:quarantine-flags", cc.Pos(), !f && len(start) > 0, "the quarantine action can complete without flagging the message: "+r.F.Describe(path))
+			c.Hold("R1", "applyResults:exhaustive", r.Pos(applyPts[0]), len(missing) == 0, "published DMARC action(s) without a handler: "+strings.Join(missing, ", ")+" (the message is accepted as if the policy were none)")
+			okR, wR := refuses("reject")
+			c.Hold("R1", "applyResults:reject-refuses", r.Pos(applyPts[0]), okR, "the reject action can fall through without refusing the message: "+wR)
+			okQ, wQ := flags("quarantine")
+			c.Hold("R1", "applyResults:quarantine-flags", r.Pos(applyPts[0]), okQ, "the quarantine action can complete without flagging the message: "+wQ)
+			// and "none" does neither (the world machinery distinguishes the values at all)
+			noneR, _ := refuses("none")
+			noneQ, _ := flags("none")
+			if noneR || noneQ {
+				c.Fail("R1", "applyResults:none-accepts", r.Pos(applyPts[0]), "undecided: the model worlds do not separate policy none from reject/quarantine")
 			}
 		}
 		// ---- R1d: with DMARC enabled the policy is evaluated on every path (no other verdict makes it optional)
